@@ -175,6 +175,8 @@ func (vc *VC) runTop() {
 		}
 	}
 	vc.cover(relFuncName(fn)+"/cover.pre", fr.pos(fn.Pos()), "true", vc.allProps(fc))
+	fr.initGhostVars()
+	fr.entry = fr.st.clone()
 	fr.run("true", fr.st)
 	if len(fr.rets) == 0 {
 		vc.note("no return reachable in %s", fn)
@@ -495,6 +497,9 @@ func (fr *Frame) contractCall(fc *FuncContract, callee *ssa.Function, args []*Va
 		fr.havocModifies(fc, env, callee)
 	} else if callee != nil {
 		fr.havocModSet(vc.eng.modSetOf(callee), name)
+	} else if fr.ifaceModSet != nil {
+		fr.havocModSet(fr.ifaceModSet, name)
+		fr.ifaceModSet = nil
 	} else {
 		fr.havocModSet(&ModSet{All: true}, name)
 	}
